@@ -155,6 +155,7 @@ func VerifyFunction(P *Program, S *Specs, key string) (res *FuncResult) {
 						co := x.oblige("cover", e.Tags, And(out.pc, ante), TFalse, fn.Pos(), "reachable: "+exprString(ce.Args[0]))
 						co.IsCanary = true
 						co.Name = fmt.Sprintf("%s/cover#%d", x.Key, k+1)
+						co.FileID = k + 1
 						if e.Label != "" {
 							co.Name = fmt.Sprintf("%s/cover#%s", x.Key, e.Label)
 						}
@@ -188,7 +189,8 @@ func VerifyFunction(P *Program, S *Specs, key string) (res *FuncResult) {
 					if e.Label != "" {
 						o.Name = fmt.Sprintf("%s/ensures#%s", x.Key, e.Label)
 					}
-					o.FileID = ri + 1
+					// (several clauses may share a label: the query files are told apart by return site and clause)
+					o.FileID = (ri+1)*1000 + k + 1
 					o.Node = rs.n
 				}
 			}
@@ -328,6 +330,11 @@ func (d *Discharger) Run(obls []*Obligation) {
 	d.modelSearch(obls)
 }
 
+var (
+	fileOwnerMu sync.Mutex
+	fileOwner   = map[string]*Obligation{}
+)
+
 // solveOne discharges one obligation, fewer assumptions first.
 func (d *Discharger) solveOne(o *Obligation) {
 	for once := true; once; once = false {
@@ -335,6 +342,20 @@ func (d *Discharger) solveOne(o *Obligation) {
 		if o.FileID > 0 {
 			fname += fmt.Sprintf(".r%d", o.FileID)
 		}
+		// no two obligations may share a query file (workers write and solvers read them concurrently)
+		fileOwnerMu.Lock()
+		for k := 0; ; k++ {
+			cand := fname
+			if k > 0 {
+				cand = fmt.Sprintf("%s.d%d", fname, k)
+			}
+			if owner, taken := fileOwner[d.Dir+"/"+cand]; !taken || owner == o {
+				fileOwner[d.Dir+"/"+cand] = o
+				fname = cand
+				break
+			}
+		}
+		fileOwnerMu.Unlock()
 		// staged: fewer assumptions first (a refutation from a subset of the assumptions is
 		// a refutation), the full set last; only the full query can give a model
 		if !o.IsCanary {
